@@ -153,9 +153,26 @@ def on_exc(w):
     return ("C16.run_aborted", "the run aborted | %s: %s" % (type(w.exc).__name__, str(w.exc)[:80]))
 
 
+def acc_C16_activity(w):
+    """orders can still be placed and cancelled during the halt -- by every agent class: while a halt is in force the
+    runner goes on asking normal and high-frequency agents exactly as the session rules say"""
+    acc_C16(w)
+    from ..acceptors_r import acc_C09
+    try:
+        acc_C09(w)
+    except common.Violation as v:
+        if v.monitor in ("C09.hft_sample", "C09.hft_order", "C09.hft_not_all_consulted", "C09.rate_draw", "C09.normal_sample", "C09.normal_order",
+                         "C09.normal_not_all_consulted"):
+            raise common.Violation("C16.activity_during_halt", "while a halt is in force agents are not asked for orders the way the session rules say (orders can still be placed and cancelled during the halt) | " + v.msg)
+        # anything else the run-loop acceptor objects to belongs to C09
+
+
 def run(tier, seed):
     res = common.Result("C16", tier, seed)
     sc = scenarios(tier)
+    hft = {k: v for k, v in sc.items() if "hft" in k}
+    sc = {k: v for k, v in sc.items() if k not in hft}
+    run_r("C16", tier, seed, hft, [acc_C16_activity], 1 if tier == "quick" else 2, on_exc, [], RULE, res=res, label="halt_with_high_frequency_agents", split=0)
     run_r("C16", tier, seed, sc, [acc_C16], 1 if tier == "quick" else 2, on_exc, WIT, RULE, res=res, label="halt_grid", split=0)
     deep = {k: v for k, v in sc.items() if k in ("halt:exec7-L2-one_market", "halt:noexec_long_then_exec-L1-two_markets_two_rules",
                                                   "halt:exec3_exec4-L2-two_markets_both_one_rule", "halt:sweep-L1-1m")}
@@ -167,4 +184,4 @@ def run(tier, seed):
 
 
 def replay(payload):
-    return replay_r(scenarios("thorough"), [acc_C16], on_exc, payload)
+    return replay_r(scenarios("thorough"), [acc_C16_activity if "hft" in payload.get("scenario", "") else acc_C16], on_exc, payload)
